@@ -42,7 +42,7 @@ def run(args):
     rep.floor("series_jacobian_cells", nser, 472)
     from . import rules_deriv
     nder = rules_deriv.check(rep, "C05")
-    rep.floor("derivative_rows", nder, 123)
+    rep.floor("derivative_rows", nder, 140)
     rep.floor("jet_switch_functions", nfj, 3)
     rep.floor("jet_jacobian_observables", noj, 8)
     rep.floor("functions_with_optional_outputs", len(opt_fns), 500)
